@@ -36,3 +36,105 @@ static const char *const T_C01[] = {
 	0
 };
 QP_HARNESS(h_q01, "q01", "C01", T_C01, 0);
+
+// C02: one serial queue (incl. initially-inactive/retargeted 'I'), mixes of all submission forms
+static const char *const T_C02[] = {
+	"S0 | a0 a0 | a0",
+	"S0 | a0 s0 | a0",
+	"S0 | a0 s0 | s0",
+	"S0 | s0 a0 | a0 s0",
+	"S0 | a0 B0 | s0",
+	"S0 | a0 w0 | a0",
+	"S0 | a0 w0 | B0",
+	"S0 | b0 s0 | a0",
+	"S0 | s0 s0 | B0",
+	"S0 | w0 | w0",
+	"S0 | a0 a0 s0",
+	"S0 | a0 w0 a0 B0",
+	"S0 | a0 | s0 | B0",
+	"S0 | a0 | a0 | s0",
+	"S0 | 30 | a0",
+	"I0 | a0 s0 | a0",
+	"G0 S1>0 | a1 s1 | a1",
+	0
+};
+QP_HARNESS(h_q02, "q02", "C02", T_C02, 0);
+
+// C03: hierarchies whose bottom is a serial queue or a workloop
+static const char *const T_C03[] = {
+	"S0 S1>0 | a1 | a0",
+	"S0 S1>0 | s1 | a0",
+	"S0 S1>0 | a1 | s0",
+	"S0 S1>0 S2>0 | a1 | a2",
+	"S0 S1>0 S2>0 | s1 | s2",
+	"S0 S1>0 S2>0 | a1 s1 | a2",
+	"S0 C1>0 | a1 | a1",
+	"S0 C1>0 | a1 a1 | s1",
+	"S0 C1>0 | b1 | a1 s0",
+	"S0 C1>0 S2>1 | a2 | a1",
+	"S0 C1>0 S2>1 | s2 | a0",
+	"S0 S1>0 S2>1 | a2 | s1",
+	"S0 S1>0 S2>1 | s2 | s0",
+	"S0 C1>0 C2>0 | a1 | a2",
+	"S0 C1>0 | A1 | a1",
+	"S0 I1>0 | a1 | s0",
+	"S0 I1>0 I2>0 | a1 | a2",
+	"W0 S1>0 | a1 | a0",
+	"W0 S1>0 S2>0 | a1 | a2",
+	"W0 C1>0 | a1 | a1 s1",
+	"W0 S1>0 | s1 | a0",
+	"W0 | a0 | w0",
+	"S0 S1>0 | a1 | a0 | s1",
+	0
+};
+QP_HARNESS(h_q03, "q03", "C03", T_C03, 0);
+
+// C04: barriers on custom concurrent queues (C = default width, N = width narrowed to 2)
+static const char *const T_C04[] = {
+	"C0 | a0 b0 | a0",
+	"C0 | b0 a0 | a0",
+	"C0 | a0 | B0",
+	"C0 | s0 | B0",
+	"C0 | s0 | b0",
+	"C0 | B0 | B0",
+	"C0 | b0 | b0",
+	"C0 | a0 k0 | a0",
+	"C0 | s0 B0 | a0",
+	"C0 | a0 b0 a0",
+	"C0 | a0 a0 b0 a0",
+	"C0 | A0 | b0",
+	"C0 | A0 | B0",
+	"C0 | w0 | b0",
+	"N0 | a0 b0 | a0",
+	"N0 | a0 a0 | B0",
+	"N0 | s0 a0 | b0 a0",
+	"N0 | a0 a0 a0 | B0",
+	"N0 | A0 | b0",
+	"N0 | s0 | s0 | B0",
+	0
+};
+QP_HARNESS(h_q04, "q04", "C04", T_C04, 0);
+
+// C05: every synchronous edge, contended so that the slow paths (waiter hand-off, redirect) are taken
+static const char *const T_C05[] = {
+	"S0 | a0 s0 | a0",
+	"S0 | a0 B0 | a0",
+	"S0 | a0 w0 | a0",
+	"S0 | s0 | s0",
+	"S0 | s0 | B0",
+	"S0 | w0 | s0",
+	"C0 | a0 s0 | b0",
+	"C0 | b0 | s0",
+	"C0 | b0 | w0",
+	"C0 | B0 | s0",
+	"S0 S1>0 | a0 s1 | a1",
+	"S0 C1>0 | b1 | s1",
+	"S0 S1>0 S2>1 | a1 | s2",
+	"G0 | s0 | a0",
+	"G0 C1>0 | b1 s1 | a1",
+	"W0 S1>0 | a1 | s1",
+	"S0 | A0 | a0",
+	"C0 | 30 | b0",
+	0
+};
+QP_HARNESS(h_q05, "q05", "C05", T_C05, 0);
